@@ -116,6 +116,7 @@ pub fn run(tier: Tier, args: &[String]) -> i32 {
             fault: None,
             min_frontier: 64,
             record: false,
+            garbage: true,
         };
         let v = V { rep: &rep };
         let st = explore::run(&cfg, &v, 24);
@@ -157,15 +158,15 @@ pub fn run(tier: Tier, args: &[String]) -> i32 {
             "Single": "one legacy-API request",
             "Two": "two concurrent requests with identical payloads + render (Command::all)",
             "Sub": "start a stream / abort the live one",
-            "Chain": "request.then_request; its event answers with a further legacy request",
+            "Chain": "(request.then_request -> event, whose update answers with a further legacy request).then(request -> event)",
             "Render": "legacy render only",
             "Timer": "Command-API timer: clear previous handle, set a new one",
             "LTimer": "legacy timers: clear the two previous, set two new",
             "Kv": "kv set with shell-provided key/value; its answer triggers legacy get + render",
             "Http": "GET with 6 headers; its answer triggers a notification",
-            "Legacy": "legacy Platform request + legacy HTTP POST with 2 headers and a body"
+            "Legacy": "legacy Platform request + legacy HTTP POST with 43 header lines (12 names x 3 values) and a body"
         },
-        "history_alphabet": "menu event (10) | answer(k) for the k-th outstanding request in issue order, k over ALL outstanding requests (a stream item if that request is a stream); answer values are a function of (request, step number): unique per step, rotating through ok/error shapes",
+        "history_alphabet": "menu event (10) | answer(k) for the k-th outstanding request in issue order, k over ALL outstanding requests (a stream item if that request is a stream) | undecodable-answer(k), at most once per history (every bridge must reject it; the twin's request is dropped if one-shot, left alone if stream); answer values are a function of (request, step number): unique per step, rotating through ok/error shapes",
         "lanes": LANES.iter().map(|l| l.name()).collect::<Vec<_>>(),
         "max_outstanding_bound": if completed_max_out == usize::MAX { json!("none") } else { json!(completed_max_out) },
         "counts_refer_to": format!("the last completed run: depth {completed_depth}"),
